@@ -43,7 +43,7 @@ CHECKS = {
         '(in-process; a sample through `meson setup`) and TLC re-parses and re-evaluates the same tokens with the reference, '
         'comparing value-vs-failure and the complete variable store (also at the point of failure) and the tree shape.',
         'Trusted: TLC, token renderer, value projection (harness/c01_eval.py). Where the reference is silent the spec answers '
-        '"unspecified" and accepts any outcome (listed in the evidence assumptions). subdir()/subproject() not exercised yet.',
+        '"unspecified" and accepts any outcome (listed in the evidence assumptions). subdir() and subproject() are exercised through generated project trees (tree_program).',
         'DESIGN.md section 5, C01'),
     'C16': (
         'TLC: normal form of program trees (specs/format/FormatEquiv over MesonGrammar) ignores exactly layout trivia and '
@@ -89,7 +89,7 @@ CHECKS = {
         'DESIGN.md section 5, C03 and section 10'),
     'C09': (
         'TLC: BuildDirCrash (state files as contents/version/synced, file-system ops, Crash between any two ops, Recover model) over a '
-        '2,368-design family of write protocols and over the op scripts recorded with strace from the real commands; trace validation '
+        '6,848-design family of write protocols (incl. machine files given through a pipe, whose private copy is the only copy) and over the op scripts recorded with strace from the real commands; trace validation '
         'of every SIGKILL point injected into the real CLI (strace inject) by TraceBuildDirCrash.tla',
         'Model checking of specs/builddir: safe write-protocol designs satisfy Recoverable and ValuesOldOrNew for every order, chunking '
         'and history (126k/200k states), the same machine is run over the op scripts recorded from the real commands (every prefix), '
@@ -205,7 +205,7 @@ CHECKS = {
         'comparators), the SemVer pair table, every cfg token sequence <= 5 (sample at 6) under all 16 configurations, and seeded '
         'random requirements / versions / cfg trees / malformed texts go through the real code; TLC parses the same texts and accepts '
         'or rejects each observation.',
-        'Known findings recorded in known_findings.d/C20.json. Pre-release versions are judged only where CargoReq!InScope holds. cfg '
+        'No known finding left (the SemVer pre-release and cfg identifier defects were repaired). Pre-release versions are judged only where CargoReq!InScope holds. cfg '
         'trailing comma and lone all/any/not may go either way.',
         'DESIGN.md section 5, C20 and section 10'),
     'C04': (
